@@ -117,22 +117,37 @@ def make_table(order, tkeys):
 _evicted_inputs = []
 
 
+_in_step = [0]
+
+
 def _watch_evictions():
-    """Class-level wrapper: records input columns evicted from any AurelCore while over_time runs."""
+    """Class-level wrapper: records input columns evicted from the AurelCore of a time step while the driver processes
+    that step (the throw-away instance over_time uses to validate a custom function holds no inputs and is not watched)."""
     import aurel.core as core
+    import aurel.time as atime
     C = core.AurelCore
     if getattr(C, "_verif_watch", False):
         return
     orig = C.cleanup_cache
+    orig_step = atime.process_single_timestep
 
     def watched(self):
         before = set(dict.keys(self.data))
         orig(self)
-        gone = before - set(dict.keys(self.data))
-        for k in gone:
-            if k in IN_SCALARS + IN_OTHERS:
-                _evicted_inputs.append((k, int(self.calculation_count)))
+        if _in_step[0]:
+            gone = before - set(dict.keys(self.data))
+            for k in gone:
+                if k in IN_SCALARS + IN_OTHERS:
+                    _evicted_inputs.append((k, int(self.calculation_count)))
+
+    def step(*a, **kw):
+        _in_step[0] += 1
+        try:
+            return orig_step(*a, **kw)
+        finally:
+            _in_step[0] -= 1
     C.cleanup_cache = watched
+    atime.process_single_timestep = step
     C._verif_watch = True
 
 
